@@ -52,7 +52,7 @@ def stored_index_vectors(prog):
     return out
 
 
-def _reindexes_holders(fn, shift_bb, op="remove"):
+def _reindexes_holders(fn, shift_bb, op="remove", prog=None):
     """After the shifting call in block shift_bb the function walks both places that hold indices
     into memory_blocks and rewrites them the way the shift moved the elements.  Only `remove(i)` is
     modelled: every element above i moves down by one, so each holder must be rewritten as
@@ -67,6 +67,25 @@ def _reindexes_holders(fn, shift_bb, op="remove"):
     pv = mir.Prov(body)
     shift = body.term(shift_bb)
     removed = mir.strip_all(pv.of_operand(shift["args"][1])) if len(shift["args"]) > 1 else None
+    if _reindex_in(body, after, removed):
+        return True
+    # the rewrite may have been moved into a private helper that is handed the removed index
+    for b, t in body.calls():
+        if b not in after or prog is None:
+            continue
+        g = prog.fns.get(t.get("res") or mir.callee_of(t))
+        if g is None or g.file != fn.file or g.id == fn.id:
+            continue
+        for j, a in enumerate(t["args"]):
+            if mir.strip_all(pv.of_operand(a)) == removed:
+                whole = {x for x in range(g.body.nblocks) if not g.body.is_cleanup(x)}
+                if _reindex_in(g.body, whole, ("param", j)):
+                    return True
+    return False
+
+
+def _reindex_in(body, after, removed):
+    pv = mir.Prov(body)
     walks_static = False
     for b, t in body.calls():
         if b in after and mir.callee_path(t).split("::")[-1] in ("values_mut", "iter_mut") \
@@ -137,7 +156,7 @@ def r1_index_stable(ctx, rule="C03.R1"):
                     continue
                 name = cp.split("::")[-1]
                 n += 1
-                if name in SHIFTING and field == "memory_blocks" and _reindexes_holders(fn, b, name):
+                if name in SHIFTING and field == "memory_blocks" and _reindexes_holders(fn, b, name, prog):
                     ctx.ok(rule, "%s:%s:%s:%s" % (rule, field, fn.name, name), "%s:%s" % (fn.file, t.get("ln")),
                            "remove(i) is followed by `if idx > i { idx -= 1 }` on both index holders "
                            "(static_memory_blocks values, State::memory_block_index)")
